@@ -172,6 +172,7 @@ class World:
         self.objs, self.kinds, self.bad, self.dead = [], [], [], set()
         self.probe = np.array([O.fl(x) for x in case['probe']])
         self.fp, self.meta_snap, self.state = [], [], []
+        self.rd, self.rd_new = {}, {}
         self.last_operand = None
         self.last_source = None
         self.triggers = []      # (object, names of the hidden attributes written) of the current step
@@ -201,13 +202,40 @@ class World:
         self.meta_snap.append(None)
         return len(self.objs) - 1
 
+    def readings(self, ob, kind):
+        """the DEFAULT-wavelength readings of an object: `waveset` (or None), `waverange`, `integrate()` with the
+        trapezoid rule and, for a bandpass, `avgwave()`; (bytes for the bit-comparison, digest for the report)"""
+        r = self.guarded(lambda: ob.waveset)
+        if 'err' in r:
+            return ('err', r['err']), {'err': r['err']}
+        if r['ok'] is None:
+            rng = self.guarded(lambda: list(ob.waverange))
+            return ('none', repr(rng.get('ok'))), {'none': True}
+        w = np.asarray(r['ok'].value, dtype=float)
+        rng = self.guarded(lambda: np.asarray(ob.waverange.value, dtype=float))
+        rb = rng['ok'].tobytes() if 'ok' in rng else ('err', rng['err'])
+        dig = {'n': int(w.size), 'lo': float(w[0]), 'hi': float(w[-1]), 'integ': None}
+        it = self.guarded(lambda: float(ob.integrate(integration_type='trapezoid').value))
+        ib = it.get('ok', it.get('err'))
+        if 'ok' in it and math.isfinite(it['ok']):
+            dig['integ'] = it['ok']
+        ab = None
+        if kind == 'bandpass':
+            av = self.guarded(lambda: float(ob.avgwave().value))
+            ab = av.get('ok', av.get('err'))
+            if 'ok' in av and math.isfinite(av['ok']):
+                dig['avg'] = av['ok']
+        return ('ok', w.tobytes(), rb, repr(ib), repr(ab)), dig
+
     def fingerprint(self, i):
-        """(bytes used for the bit-comparison, values for reporting)"""
+        """(bytes used for the bit-comparison, values for reporting); the default-wavelength readings are kept
+        in self.rd[i] / self.rd_dig[i]"""
         if i in self.dead:
             return ('dead',), None
         ob = self.objs[i]
         if self.bad[i]:
             return ('bad',), None
+        self.rd_new[i] = self.readings(ob, self.kinds[i])
         try:
             v = np.asarray(ob(self.probe).value, dtype=float)
         except Exception as e:  # noqa
@@ -343,9 +371,13 @@ class World:
             span = hi - lo
             w = min(0.6 * span, 0.9 * lo)
             x0 = {'high': hi, 'low': lo, 'sliver': hi - 0.496 * w, 'disjoint': hi + 2 * w, 'inside': 0.5 * (lo + hi)}[leaf['rel']]
+            # on the dyadic lattice (multiples of 1/8 A), so that the edge tests `x0 - w/2 <= x` of the box at its own
+            # sampling points are decided identically in binary64 and in exact arithmetic
+            x0 = F(round(x0 * 8), 8)
+            w = F(max(round(w * 8), 8), 8)
             leaf = {'leaf': 'box', 'amp': leaf['amp'], 'x0': q(x0), 'width': q(w), 'step': q(w / 8)}
         d = {'prim': st['kind'], 'leaf': leaf}
-        O.fill_ss(d, with_ss=False)
+        O.fill_ss(d, with_ss=True)      # the analytic model's own sampling set is data for the model (DESIGN 1.2a)
         conc = {'do': 'new_analytic', 'kind': st['kind'], 'leaf': d['leaf']}
         if self.z_kwargs(st, st['kind'], {}, conc):
             d['z'] = st['z']
@@ -363,6 +395,10 @@ class World:
         kw = {}
         conc = {'do': 'new_blackbody', 'temp': st['temp'], 'expr': jcanon('bb({0})'.format(float(t)))}
         self.z_kwargs(st, 'source', kw, conc)
+        if t > 0:
+            ss = np.asarray(BlackBody1D(temperature=t).sampleset(), dtype=float)
+            if np.all(np.isfinite(ss)):
+                conc['ss'] = qs(ss.tolist())
         out = self.guarded(lambda: SourceSpectrum(BlackBody1D, temperature=t, **kw))
         if 'ok' in out:
             out = {'ok': {'obj': self.add_obj(out['ok'], 'source', t < 0)}}
@@ -758,7 +794,7 @@ class World:
         from synphot.config import conf
         d = conc['do']
         raised = 'err' in out
-        rec = {'arr': [], 'dict': [], 'objs': [], 'meta_changed': [], 'meta': {}, 'samples': {}, 'kinds': {}}
+        rec = {'arr': [], 'dict': [], 'objs': [], 'meta_changed': [], 'meta': {}, 'samples': {}, 'kinds': {}, 'dflt': {}}
         clipped = set()
         for i, a in enumerate(self.arrs):
             s = arr_snapshot(a)
@@ -802,6 +838,16 @@ class World:
         for i in range(len(self.objs)):
             fp, vals = self.fingerprint(i)
             mc = None if i in self.dead else meta_canon(self.objs[i].meta)
+            rdn = self.rd_new.get(i)
+            if rdn is not None:
+                rec['dflt'][str(i)] = rdn[1]
+                if i < n_before and i in self.rd and rdn[0] != self.rd[i][0] and i not in allow_s:
+                    self.fail('%s:default_wavelength_readings_changed' % d,
+                              'waveset / waverange / integrate() / avgwave() of object #%d (%s) differ after %s%s, which '
+                              'is not a documented mutator of it (%s -> %s)' % (
+                                  i, self.kinds[i], d, ' (the call raised %s)' % out['err'] if raised else '',
+                                  self.rd[i][1], rdn[1]), k)
+                self.rd[i] = rdn
             if i >= n_before:
                 rec['samples'][str(i)] = vals
                 rec['meta'][str(i)] = mc
@@ -861,11 +907,8 @@ class World:
         import astropy.units as u
         cls = type(self.objs[i]).__name__
         self.hidden_tags.append('hidden_write:' + cls)
-        fresh_world = World(self.case)
+        fresh_world = self.fresh_world(k)
         try:
-            for j, sj in enumerate(self.case['steps'][:k + 1]):
-                if sj['do'] in BUILDING_STEPS:
-                    fresh_world.run_step(j, sj)
             if len(fresh_world.objs) <= i or fresh_world.kinds[i] != self.kinds[i]:
                 return              # the object cannot be rebuilt without the skipped calls: nothing to compare with
             live = self.objs[i]
@@ -922,10 +965,77 @@ class World:
                                          '' if e is None else ', E=%g' % e, a_live[0], a_fresh[0]), k)
                             self.followups.append({'step': k, 'object': i, 'queries': done})
                             return
+            # each documented mutator once, on a private copy of the live object (hidden state included) and on a
+            # copy of the fresh twin alike, followed by the default-wavelength readings and the samples
+            for which in ('z', 'z_type', 'force_extrapolation', 'meta'):
+                a_live = self.mutate_and_read(copy.deepcopy(live), self.kinds[i], which)
+                a_fresh = self.mutate_and_read(copy.deepcopy(fresh_world.objs[i]), self.kinds[i], which)
+                done.append({'mutator': which})
+                if a_live != a_fresh:
+                    self.fail('%s:result_depends_on_earlier_call:%s' % (which, cls),
+                              'after step %d (%s) wrote %s on object #%d: assigning %s and then reading waveset / waverange / '
+                              'integrate() / samples gives something else than on a fresh identical object that never saw '
+                              'the earlier calls' % (k, conc.get('m', conc['do']), names, i, which), k)
+                    self.followups.append({'step': k, 'object': i, 'queries': done})
+                    return
             self.followups.append({'step': k, 'object': i, 'queries': len(done)})
         finally:
             fresh_world.close()
             np.seterr(**DEF_ERR)
+
+    def fresh_world(self, k):
+        """a new world in which only the constructing / documented-mutator steps 0..k of the history have run: its
+        objects are structurally identical to the live ones, carry the same final attribute values, and never saw
+        any query"""
+        fw = World(self.case)
+        for j, sj in enumerate(self.case['steps'][:k + 1]):
+            if sj['do'] in BUILDING_STEPS:
+                fw.run_step(j, sj)
+        return fw
+
+    def check_assigned(self, k, conc, info):
+        """after z / z_type / force_extrapolation has been assigned on object o: its default-wavelength readings and
+        its samples must equal those of a fresh twin built with the final attribute values"""
+        o = info.get('o')
+        if o is None or o in self.dead or self.bad[o]:
+            return
+        fw = self.fresh_world(k)
+        try:
+            if len(fw.objs) <= o or fw.kinds[o] != self.kinds[o]:
+                return
+            twin = fw.objs[o]
+            r_live = self.rd_new.get(o) or self.readings(self.objs[o], self.kinds[o])
+            r_twin = fw.readings(twin, fw.kinds[o])
+            if r_live[0] != r_twin[0]:
+                self.fail('%s:readings_depend_on_earlier_queries' % conc['do'],
+                          'after %s on object #%d its waveset / waverange / integrate() / avgwave() are %s; a fresh identical '
+                          'object given the same final attribute values (and never queried before) reads %s'
+                          % (conc['do'], o, r_live[1], r_twin[1]), k)
+            s_live = self.guarded(lambda: np.asarray(self.objs[o](self.probe).value).tobytes())
+            s_twin = self.guarded(lambda: np.asarray(twin(self.probe).value).tobytes())
+            if s_live.get('ok') != s_twin.get('ok'):
+                self.fail('%s:samples_depend_on_earlier_calls' % conc['do'],
+                          'after %s object #%d samples differently from a fresh identical object with the same final '
+                          'attribute values' % (conc['do'], o), k)
+        finally:
+            fw.close()
+            np.seterr(**DEF_ERR)
+
+    def mutate_and_read(self, ob, kind, which):
+        """apply one documented mutator to `ob` (a private copy) and take its default-wavelength readings"""
+        def f():
+            if which == 'z' and kind == 'source':
+                ob.z = 1.0 if ob.z != 1.0 else 3.0
+            elif which == 'z_type' and kind == 'source':
+                ob.z_type = 'conserve_flux' if ob.z_type != 'conserve_flux' else 'wavelength_only'
+            elif which == 'force_extrapolation':
+                ob.force_extrapolation()
+            elif which == 'meta':
+                ob.meta['followup'] = 'edited'
+        e = self.guarded(f)
+        if 'err' in e:
+            return ('err', e['err'])
+        return self.readings(ob, kind)[0], self.guarded(lambda: np.asarray(ob(self.probe).value).tobytes()).get('ok')
 
     def after_follow_up(self, k, conc):
         """every live object must still sample as before the follow-up queries"""
@@ -1031,6 +1141,8 @@ def impl_call(case):
             w.triggers = []
             rec = w.observe(k, conc, out, info or {}, allowed, n_before, last=(k == len(case['steps']) - 1))
             w.check_result_meta(k, conc, out, info or {}, metas_before)
+            if conc['do'] in ('set_z', 'set_ztype', 'force_extrap') and 'err' not in out:
+                w.check_assigned(k, conc, info or {})
             if w.triggers and not case.get('_fresh'):
                 for i, names in w.triggers[:3]:
                     w.follow_up(k, st, conc, i, names)
@@ -1046,7 +1158,7 @@ def impl_call(case):
 def model_case(case, impl):
     steps = [s['conc'] for s in impl['ok'] if s is not None]
     arrays = [{'data': a['data'], 'container': a['container']} for a in case['arrays']]
-    mc = {'op': 'heap_history', 'const': case['const'], 'probe': case['probe'], 'arrays': arrays,
+    mc = {'op': 'heap_history', 'const': case['const'], 'thr': q(O.THR), 'probe': case['probe'], 'arrays': arrays,
           'dicts': case['dicts'], 'steps': steps}
     if os.environ.get('C19_FIXES') is not None:
         # scratch-worktree runs against another code version: the model version that contains exactly the named
@@ -1062,7 +1174,12 @@ def compare(case, impl, model):
     if len(isteps) != len(model['ok']):
         return 'step count %d vs %d' % (len(isteps), len(model['ok']))
     atol = 1e-11 * impl.get('scale', 0.0)
+    mread = {}      # the model's default-wavelength readings of every object, as of its last change
     for n, (s, m) in enumerate(zip(isteps, model['ok'])):
+        mread.update(m.get('dflt', {}))
+        r = compare_readings(s['rec'].get('dflt', {}), mread, 'step[%d:%s]' % (n, s['conc']['do']), atol)
+        if r:
+            return r
         rec, conc = s['rec'], s['conc']
         where = 'step[%d:%s]' % (n, conc['do'])
         # outcome
@@ -1121,6 +1238,31 @@ def compare(case, impl, model):
                     return '%s: samples of object %s: impl %s vs model %s' % (where, i, core._short(v), core._short(mv))
                 continue
             r = core.same(v, mv, rtol=1e-9, atol=atol, path='%s.samples[%s]' % (where, i))
+            if r:
+                return r
+    return None
+
+
+def compare_readings(impl, mread, where, atol):
+    for i, v in impl.items():
+        mv = mread.get(i)
+        if mv is None or v is None:
+            continue
+        if 'err' in v or 'err' in mv:
+            if v.get('err') != mv.get('err'):
+                return '%s: waveset of object %s: impl %s vs model %s' % (where, i, v, core._short(mv))
+            continue
+        if v.get('none') or mv.get('none'):
+            if not (v.get('none') and mv.get('none')):
+                return '%s: waveset of object %s: impl %s vs model %s' % (where, i, v, core._short(mv))
+            continue
+        if v['n'] != mv['n']:
+            return '%s: waveset of object %s has %d points, model %d' % (where, i, v['n'], mv['n'])
+        for key in ('lo', 'hi', 'integ', 'avg'):
+            if v.get(key) is None or mv.get(key) is None:
+                continue
+            r = core.same(v[key], mv[key], rtol=1e-9, atol=atol if key in ('integ',) else 0.0,
+                          path='%s.dflt[%s].%s' % (where, i, key))
             if r:
                 return r
     return None
